@@ -500,7 +500,7 @@ PROPERTIES = {
                            "from a thread and from a child process.",
             "outside": ["the kernel's flock semantics", "racing creation of one empty directory (the exists/empty test before the lock is a documented TOCTOU)",
                         "process death / kill", "that every background writer goes through the I/O pool"]},
-    "C17": {"level": "model_checking", "obligations": [P_PRE_META, P_SYNC_ORDER, P_RECOVER_ORDER, P_ROLLBACK_SYNC, M_ALLOC_GROW],
+    "C17": {"level": "model_checking", "obligations": [P_PRE_META, P_SYNC_ORDER, P_RECOVER_ORDER, P_ROLLBACK_SYNC, P_BEATREE_SYNC, M_ALLOC_GROW],
             "explanation": "Until Meta::write returned, the bitbox side writes only the WAL: no HT page write, no WAL truncation. Decided "
                            "over the MIR event structure of the pre-meta functions.",
             "outside": ["beatree page allocation (new data only to free / beyond-end pages)", "rollback seglog pruning", "free-list correctness"]},
